@@ -143,6 +143,21 @@ def _run(case_id, res, seed, replay_dir, log):
     obligations = []
     if kind == "dt0":
         obligations.append(("proposal is strictly positive for every initial value and vector field", r <= 0))
+        # documented formula, written independently: scale * (|u0| + nugget) / (|f0| + nugget), u0 = zeroth coefficient only
+        def absz(x):
+            return z3.If(x >= 0, x, -x)
+
+        def nrm(xs):
+            if len(xs) == 1:
+                return absz(xs[0])
+            rr = dom.uf(f"NORM{len(xs)}", tuple(xs))
+            norm_apps.append((xs, rr))
+            return rr
+        args_f = list(u0) + (list(v0) if order == 2 else []) + [t0]
+        f0 = [dom.ufs[f"f[{k}]"](*args_f) for k in range(d)]
+        nug = z3.RealVal("1e-5")
+        model = dom.div(z3.RealVal("0.01") * (nrm(list(u0)) + nug), nrm(f0) + nug)
+        obligations.append(("proposal equals scale*(|u0|+nugget)/(|f0|+nugget)", r != model))
     else:
         obligations.append(("proposal is strictly positive for every initial value and vector field", r <= 0))
         # independent model (HNW II.4 / jax.experimental.ode.initial_step_size), over the same abstractions
@@ -151,8 +166,12 @@ def _run(case_id, res, seed, replay_dir, log):
     A += _axioms(dom, consts)
     for comps, nr in norm_apps:
         A += [nr >= 0, z3.Implies(z3.And([c == 0 for c in comps]), nr == 0), z3.Implies(z3.Or([c != 0 for c in comps]), nr > 0)]
-        for c in comps:
+        absl = [z3.If(c >= 0, c, -c) for c in comps]
+        A.append(nr <= z3.Sum(absl))
+        for i, c in enumerate(comps):
             A += [nr >= c, nr >= -c]
+            others = [comps[j] == 0 for j in range(len(comps)) if j != i]
+            A.append(z3.Implies(z3.And(others), nr == absl[i]))
     A += dom.side
     s.add(A)
     r0 = str(s.check())
@@ -236,16 +255,17 @@ def real_run(case_id, params):
     kind, a, b = case_id.split("/")
     d = int(b[1])
     u0 = jnp.asarray(params["u0"]); f0 = jnp.asarray(params["f0"]); J = jnp.asarray(params.get("J", np.zeros((d, d))))
+    W = jnp.asarray(params.get("W", np.zeros((d,)))); T0 = params["t0"]
     if kind == "dt0":
         order = int(a[1])
         if order == 1:
-            vf = probdiffeq.ode(lambda u, *, t: f0 + J @ (u - u0))
+            vf = probdiffeq.ode(lambda u, *, t: f0 + J @ (u - u0) + W * (t - T0))
             return float(ivpsolve.dt0(vf, (u0,), t=params["t0"]))
         v0 = jnp.asarray(params["v0"])
         vf = probdiffeq.ode_order_two(lambda u, du, *, t: f0 + J @ (u - u0))
         return float(ivpsolve.dt0(vf, (u0, v0), t=params["t0"]))
     rate = int(a[1:])
-    vf = probdiffeq.ode(lambda u, *, t: f0 + J @ (u - u0))
+    vf = probdiffeq.ode(lambda u, *, t: f0 + J @ (u - u0) + W * (t - T0))
     return float(ivpsolve.dt0_adaptive(vf, (u0,), params["t0"], error_contraction_rate=rate, rtol=params["rtol"], atol=params["atol"]))
 
 
@@ -254,12 +274,13 @@ def hnw_reference(params, rate):
     u0 = np.asarray(params["u0"], dtype=float); f0 = np.asarray(params["f0"], dtype=float)
     J = np.asarray(params.get("J", np.zeros((len(u0), len(u0)))), dtype=float)
     atol, rtol = params["atol"], params["rtol"]
-    f = lambda u: f0 + J @ (u - u0)   # noqa: E731
+    W = np.asarray(params.get("W", np.zeros(len(u0))), dtype=float)
     scale = atol + np.abs(u0) * rtol
     d0 = np.linalg.norm(u0 / scale); d1 = np.linalg.norm(f0 / scale)
     h0 = 1e-6 if (d0 < 1e-5 or d1 < 1e-5) else 0.01 * d0 / d1
     y1 = u0 + h0 * f0
-    d2 = np.linalg.norm((f(y1) - f0) / scale) / h0
+    f1 = f0 + J @ (y1 - u0) + W * h0           # field evaluated at (y1, t0 + h0)
+    d2 = np.linalg.norm((f1 - f0) / scale) / h0
     if d1 <= 1e-15 and d2 <= 1e-15:
         h1 = max(1e-6, h0 * 1e-3)
     else:
@@ -285,14 +306,19 @@ def replay_model(case_id, m, u0, v0, t0, atol, rtol, dom, name):
         info["real_value"] = val
         if "positive" in name:
             bad = not (val > 0 and math.isfinite(val))
+        elif kind == "dt0":
+            un = float(np.linalg.norm(params["u0"])); fn_ = float(np.linalg.norm(params["f0"]))
+            ref = 0.01 * (un + 1e-5) / (fn_ + 1e-5)
+            info["formula_reference"] = ref
+            bad = abs(val - ref) > 1e-9 * max(1.0, abs(ref))
         else:
             ref = hnw_reference(params, int(a[1:]))
             info["hnw_reference"] = ref
             bad = abs(val - ref) > 1e-9 * max(1.0, abs(ref))
             if not bad:
                 # the solver's witness may rely on a field that is not affine: try a few slopes
-                for slope in (1.0, -3.0, 10.0):
-                    p2 = dict(params); p2["J"] = (slope * np.eye(d)).tolist()
+                for slope, wt in ((1.0, 0.0), (-3.0, 0.0), (10.0, 0.0), (0.0, 1000.0), (1.0, -50.0)):
+                    p2 = dict(params); p2["J"] = (slope * np.eye(d)).tolist(); p2["W"] = [wt] * d
                     v2 = real_run(case_id, p2); r2 = hnw_reference(p2, int(a[1:]))
                     if abs(v2 - r2) > 1e-9 * max(1.0, abs(r2)):
                         info.update({"params": p2, "real_value": v2, "hnw_reference": r2}); bad = True
@@ -310,6 +336,10 @@ def replay(path):
     print("real value:", val, "params:", data["params"])
     if "positive" in data["obligation_name"]:
         bad = not (val > 0 and math.isfinite(val))
+    elif data["case"].startswith("dt0"):
+        ref = 0.01 * (float(np.linalg.norm(data["params"]["u0"])) + 1e-5) / (float(np.linalg.norm(data["params"]["f0"])) + 1e-5)
+        print("formula reference:", ref)
+        bad = abs(val - ref) > 1e-9 * max(1.0, abs(ref))
     else:
         ref = hnw_reference(data["params"], int(data["case"].split("/")[1][1:]))
         print("HNW reference:", ref)
